@@ -446,6 +446,40 @@ class NumExec:
                     p.env["__self_fields__"] = outs[0][2].env.get("__self_fields__")
                     return None
             return None
+        # a helper of the package itself - self.<method>(...) / <Class>.<method>(...) of the object's own class hierarchy, or a module-level function of the module under
+        # analysis - is executed in place from the real source (counted as verified code); anything it does outside the subset makes the caller undecided as before
+        callee = None
+        if isinstance(f, ast.Attribute) and isinstance(f.value, ast.Name) and s.selfobj is not None and (f.value.id == "self" or f.value.id in s.src.mro(s.selfobj.cls)):
+            for c in (s.src.mro(s.selfobj.cls) if f.value.id == "self" else s.src.mro(f.value.id)):
+                m = s.src.module_of_class(c)
+                if m and s.src.has_func(m, f"{c}.{f.attr}"):
+                    callee = (m, f"{c}.{f.attr}", s.src.func(m, f"{c}.{f.attr}")); break
+        elif isinstance(f, ast.Name) and s.src.has_func(s.module, f.id):
+            callee = (s.module, f.id, s.src.func(s.module, f.id))
+        if callee is not None:
+            m, q, fn = callee
+            decs = {ast.unparse(d) for d in fn.decorator_list}
+            if decs - {"staticmethod"}:
+                raise Unsupported(f"call of the decorated helper {q} ({sorted(decs)}) at line {e.lineno}")
+            static = "staticmethod" in decs or isinstance(f, ast.Name)
+            if not static and f.value.id != "self":
+                raise Unsupported(f"unbound call {ast.unparse(f)} at line {e.lineno}")
+            if s.depth > 4:
+                raise Unsupported(f"inlining depth at line {e.lineno}")
+            env = s.bind(fn, [s.ev(p, a) for a in e.args], {k.arg: s.ev(p, k.value) for k in e.keywords}, p, static=static)
+            if not static:
+                env["__self_fields__"] = p.env.get("__self_fields__", s.selfobj.fields)
+            s.depth += 1
+            try:
+                outs = s._run_impl(fn, env, pc=p.pc)
+            finally:
+                s.depth -= 1
+            if len(outs) != 1 or outs[0][0] != "return":
+                raise Unsupported(f"helper {q} with several outcomes at line {e.lineno}")
+            if not static and outs[0][2].env.get("__self_fields__") is not None:
+                p.env["__self_fields__"] = outs[0][2].env.get("__self_fields__")
+            s.inlined.add(f"{m}.{q}")
+            return outs[0][1]
         # Cls(kw...).method(args)  and  obj.method(args): modular call through the hook
         if isinstance(f, ast.Attribute):
             if isinstance(f.value, ast.Call) and isinstance(f.value.func, ast.Name) and s.call_hook:
@@ -459,8 +493,19 @@ class NumExec:
         raise Unsupported(f"call {ast.unparse(e.func)} at line {e.lineno}")
 
     def np_call(s, p, name, e):
+        if name in ("asarray", "array") and len(e.args) == 1 and (not e.keywords or (len(e.keywords) == 1 and e.keywords[0].arg == "dtype" and ast.unparse(e.keywords[0].value) == "settings.float_type")):
+            # the body of library.scalar(): conversion to the library float type (np.array copies, np.asarray does not)
+            v = s.num(s.ev(p, e.args[0]), e)
+            if not e.keywords and v.isint:
+                raise Unsupported(f"np.{name} of an integer without dtype at line {e.lineno}")
+            return Num(v.x, v.data, False, False, alias=v.alias and name == "asarray")
         a = [s.ev(p, x) for x in e.args]
         kw = {k.arg: s.ev(p, k.value) for k in e.keywords}
+        if name in ("ones_like", "zeros_like") and len(a) == 1 and not kw:
+            like = s.num(a[0], e)
+            if like.isint or like.py:
+                raise Unsupported(f"np.{name} of a value that is not a float array at line {e.lineno}")
+            return Num(xr.const(1.0 if name == "ones_like" else 0.0), like.data, False)
         allowed = {"where": set(), "full_like": {"fill_value"}, "nan_to_num": {"nan", "neginf", "posinf"}, "isclose": {"rtol", "atol", "equal_nan"}}
         if set(kw) - allowed.get(name, set()):
             raise Unsupported(f"np.{name} with keyword arguments {sorted(kw)} (e.g. out= writes into an existing array) at line {e.lineno}")
